@@ -1,7 +1,7 @@
 use crate::{
     cfg::Cfg,
     parser::InstructionProperties,
-    passes::{DiagnosticBuilder, DiagnosticLocation, DiagnosticManager, LintError, LintPass},
+    passes::{DiagnosticBuilder, DiagnosticManager, LintError, LintPass},
 };
 use std::rc::Rc;
 
@@ -23,10 +23,7 @@ impl LintPass for ControlFlowCheck {
                 // live in hash sets, and the order decides which of two
                 // diagnostics on this node comes first
                 let mut functions = node.functions().iter().cloned().collect::<Vec<_>>();
-                functions.sort_by_key(|func| {
-                    let entry = func.entry();
-                    (entry.range().start().raw_index(), entry.file())
-                });
+                functions.sort_by_key(|func| func.entry().position());
                 for prev_node in &crate::cfg::in_source_order(&node.prevs()) {
                     for function in &functions {
                         if prev_node.is_program_entry() {
